@@ -63,7 +63,8 @@ class Recording:
         global _enabled
         _enabled = False
         for ev in _events:
-            paths = [p for p in ev[1:3] if isinstance(p, str)]
+            paths = [p for p in (ev[1:2] if ev[0] == 'open-write' else ev[1:3])
+                     if isinstance(p, str)]
             if any(os.path.abspath(p) == self.root
                    or os.path.abspath(p).startswith(self.root + os.sep)
                    for p in paths):
